@@ -265,6 +265,10 @@ func runCaseInner(d *desc, typ el.EventType, variant int, prefill bool) string {
 	case 4:
 		node = &el.JSONFormatterFilter{Predicate: func(interface{}) (bool, error) { return false, errPred }}
 		wantPredErr = true
+	case 5:
+		// an error is an error whatever the boolean next to it says
+		node = &el.JSONFormatterFilter{Predicate: func(interface{}) (bool, error) { return true, errPred }}
+		wantPredErr = true
 	}
 	out, err := node.Process(context.Background(), e)
 	img, encodable := image(d)
@@ -508,7 +512,7 @@ func main() {
 			case job.Scn < nChunks:
 				for i := job.Scn * chunk; i < min((job.Scn+1)*chunk, len(ds)); i++ {
 					for ti, typ := range eventTypes {
-						for variant := 0; variant < 5; variant++ {
+						for variant := 0; variant < 6; variant++ {
 							if ti > 0 && variant > 1 && (i+ti)%5 != 0 {
 								continue
 							}
@@ -545,7 +549,7 @@ func main() {
 				return hk.ExploreJob(prop, job, deadline, ex, fmt.Sprintf("program %d nilTable=%v", k/2, k%2 == 1))
 			}
 		},
-		Rule: "payloads: every value of a JSON grammar with leaves {\"\", ascii, quotes/backslash/control characters, invalid UTF-8, <>& and U+2028, 2^53+1, -1, 1.5, nil, true, NaN, +Inf, chan, func, complex} in containers {map, slice of 1-2, struct with json tags incl. omitempty, pointer} nested up to depth 3 (level 3 sampled 1-in-7 in quick, complete in thorough) x event types {plain, quote+backslash, newline, unicode+html, control bytes + DEL + ESC, invalid UTF-8, unassigned / plane-14 / U+10FFFF runes} x {JSONFormatter, JSONFormatterFilter with predicate absent/true/false/error}. Oracle: one newline-terminated line, valid JSON with exactly created_at/event_type/payload decoding back to the creation time, the type and the JSON image computed from the descriptor; payload/type/time untouched; unencodable => (nil, err) and nothing stored; the bytes stored for the previously formatted event stay unchanged (no buffer reuse); every case also with an event that already carries stale bytes under the json format (they must be replaced); forwarding truth tables incl. Filter. Event.FormattedAs/Format: 4 programs of 2-3 threads x 2 operations on 2 keys (with and without a pre-made table), ALL interleavings under the race detector, results must be linearizable to a last-writer-wins map (brute force).",
+		Rule: "payloads: every value of a JSON grammar with leaves {\"\", ascii, quotes/backslash/control characters, invalid UTF-8, <>& and U+2028, 2^53+1, -1, 1.5, nil, true, NaN, +Inf, chan, func, complex} in containers {map, slice of 1-2, struct with json tags incl. omitempty, pointer} nested up to depth 3 (level 3 sampled 1-in-7 in quick, complete in thorough) x event types {plain, quote+backslash, newline, unicode+html, control bytes + DEL + ESC, invalid UTF-8, unassigned / plane-14 / U+10FFFF runes} x {JSONFormatter, JSONFormatterFilter with predicate absent/true/false/(false,error)/(true,error)}. Oracle: one newline-terminated line, valid JSON with exactly created_at/event_type/payload decoding back to the creation time, the type and the JSON image computed from the descriptor; payload/type/time untouched; unencodable => (nil, err) and nothing stored; the bytes stored for the previously formatted event stay unchanged (no buffer reuse); every case also with an event that already carries stale bytes under the json format (they must be replaced); forwarding truth tables incl. Filter. Event.FormattedAs/Format: 4 programs of 2-3 threads x 2 operations on 2 keys (with and without a pre-made table), ALL interleavings under the race detector, results must be linearizable to a last-writer-wins map (brute force).",
 		Assumptions: []string{
 			"encoding/json's decoder is the independent reader of the emitted bytes; the expected image is computed from the value's descriptor, never by encoding the value",
 		},
